@@ -15,7 +15,7 @@ suite=$(PYTHONPATH=$wt /venv/bin/python -m pytest -q -p no:cacheprovider dds_tes
 echo "seed=$(basename $sd) demo_clean=$c0 demo_patched=$c1 suite='$suite'"
 cd /verif
 for id in "$@"; do
-  out=$(VERIF_REPO=$wt timeout 3000 /venv/bin/python -W ignore -m vf.run $id --tier ${SEED_TIER:-quick} 2>&1); rc=$?
+  out=$(VERIF_EVIDENCE_DIR=/tmp/sc-evidence VERIF_REPO=$wt timeout 3000 /venv/bin/python -W ignore -m vf.run $id --tier ${SEED_TIER:-quick} 2>&1); rc=$?
   echo "  check $id -> exit $rc : $(echo "$out" | grep -v KNOWN-FINDING | head -2 | cut -c1-260 | tr '\n' ' ')"
 done
 rm -f /tmp/sc-$$.out
